@@ -120,60 +120,94 @@ func (c *Ctx) evaluatorBindingShape(e RegEntry) (entries bool, fun bool, binds b
 		}
 		return true
 	})
-	ast.Inspect(body, func(n ast.Node) bool {
-		rs, ok := n.(*ast.RangeStmt)
-		if !ok || rs.Value == nil {
-			return true
-		}
-		se, ok := ast.Unparen(rs.X).(*ast.SelectorExpr)
-		if !ok || se.Sel.Name != "Cells" {
-			return true
-		}
-		o := identObj(info, se.X)
-		if o == nil || !first[o] {
-			return true
-		}
-		ent := identObj(info, rs.Value)
-		// the entry is itself indexed as a list — in the loop body, or in a same-package helper the
-		// body hands the entry to (one entry of the binding list handled by a shared function)
-		var scan func(ui *types.Info, body ast.Node, entObj types.Object, depth int)
-		scan = func(ui *types.Info, body ast.Node, entObj types.Object, depth int) {
-			ast.Inspect(body, func(m ast.Node) bool {
-				if s2, ok := m.(*ast.SelectorExpr); ok && s2.Sel.Name == "Cells" && identObj(ui, s2.X) == entObj {
-					entries = true
-				}
-				if ce, ok := m.(*ast.CallExpr); ok {
-					if s3, ok := ast.Unparen(ce.Fun).(*ast.SelectorExpr); ok {
-						if s3.Sel.Name == "Lambda" {
-							fun = true
-						}
-						if s3.Sel.Name == "Put" && depth > 0 {
-							if tv, ok := ui.Types[s3.X]; ok && strings.HasSuffix(tv.Type.String(), "lisp.LEnv") {
-								binds = true
+	// the walk over the binding list may be written in this operator or in a same-package function the
+	// operator hands the binding list to (`bindLet(env, letenv, bindlist, parallel)` shared by let and let*)
+	var walkRanges func(info *types.Info, body ast.Node, first map[types.Object]bool, depth int)
+	walkRanges = func(info *types.Info, body ast.Node, first map[types.Object]bool, depth int) {
+		ast.Inspect(body, func(n ast.Node) bool {
+			if ce, ok := n.(*ast.CallExpr); ok && depth < 2 {
+				if h := originOf(Callee(info, ce)); h != nil && h.Pkg() == u.Obj.Pkg() {
+					if hd := c.declOf[h]; hd != nil && hd.Body != nil {
+						hu := FuncUnit{h, hd, c.pkgOf[hd]}
+						hps := paramObjs(hu)
+						hfirst := map[types.Object]bool{}
+						for ai, a := range ce.Args {
+							if o := identObj(info, a); o != nil && first[o] && ai < len(hps) {
+								hfirst[hps[ai]] = true
 							}
 						}
+						if len(hfirst) > 0 {
+							hi := hu.Pkg.TypesInfo
+							ast.Inspect(hd.Body, func(m ast.Node) bool {
+								if c2, ok := m.(*ast.CallExpr); ok {
+									if se, ok := ast.Unparen(c2.Fun).(*ast.SelectorExpr); ok && se.Sel.Name == "Put" {
+										if tv, ok := hi.Types[se.X]; ok && strings.HasSuffix(tv.Type.String(), "lisp.LEnv") {
+											binds = true
+										}
+									}
+								}
+								return true
+							})
+							walkRanges(hi, hd.Body, hfirst, depth+1)
+						}
 					}
-					if depth < 2 {
-						if h := originOf(Callee(ui, ce)); h != nil && h.Pkg() == u.Obj.Pkg() {
-							if hd := c.declOf[h]; hd != nil && hd.Body != nil {
-								hu := FuncUnit{h, hd, c.pkgOf[hd]}
-								hps := paramObjs(hu)
-								off := 0
-								for i, a := range ce.Args {
-									if identObj(ui, a) == entObj && i+off < len(hps) {
-										scan(hu.Pkg.TypesInfo, hd.Body, hps[i+off], depth+1)
+				}
+			}
+			rs, ok := n.(*ast.RangeStmt)
+			if !ok || rs.Value == nil {
+				return true
+			}
+			se, ok := ast.Unparen(rs.X).(*ast.SelectorExpr)
+			if !ok || se.Sel.Name != "Cells" {
+				return true
+			}
+			o := identObj(info, se.X)
+			if o == nil || !first[o] {
+				return true
+			}
+			ent := identObj(info, rs.Value)
+			// the entry is itself indexed as a list — in the loop body, or in a same-package helper the
+			// body hands the entry to (one entry of the binding list handled by a shared function)
+			var scan func(ui *types.Info, body ast.Node, entObj types.Object, depth int)
+			scan = func(ui *types.Info, body ast.Node, entObj types.Object, depth int) {
+				ast.Inspect(body, func(m ast.Node) bool {
+					if s2, ok := m.(*ast.SelectorExpr); ok && s2.Sel.Name == "Cells" && identObj(ui, s2.X) == entObj {
+						entries = true
+					}
+					if ce, ok := m.(*ast.CallExpr); ok {
+						if s3, ok := ast.Unparen(ce.Fun).(*ast.SelectorExpr); ok {
+							if s3.Sel.Name == "Lambda" {
+								fun = true
+							}
+							if s3.Sel.Name == "Put" && depth > 0 {
+								if tv, ok := ui.Types[s3.X]; ok && strings.HasSuffix(tv.Type.String(), "lisp.LEnv") {
+									binds = true
+								}
+							}
+						}
+						if depth < 2 {
+							if h := originOf(Callee(ui, ce)); h != nil && h.Pkg() == u.Obj.Pkg() {
+								if hd := c.declOf[h]; hd != nil && hd.Body != nil {
+									hu := FuncUnit{h, hd, c.pkgOf[hd]}
+									hps := paramObjs(hu)
+									off := 0
+									for i, a := range ce.Args {
+										if identObj(ui, a) == entObj && i+off < len(hps) {
+											scan(hu.Pkg.TypesInfo, hd.Body, hps[i+off], depth+1)
+										}
 									}
 								}
 							}
 						}
 					}
-				}
-				return true
-			})
-		}
-		scan(info, rs.Body, ent, 0)
-		return true
-	})
+					return true
+				})
+			}
+			scan(info, rs.Body, ent, 0)
+			return true
+		})
+	}
+	walkRanges(info, body, first, 0)
 	return entries, fun, binds
 }
 
